@@ -247,6 +247,7 @@ type verdict struct {
 	detail   string
 	leftover string // session / stored record found after a rejection
 	na       bool   // case cannot be expressed at this entry point
+	silent   bool   // neither an identity nor an error was returned
 }
 
 func epVerifyAddress(id ident) (v verdict) {
@@ -265,6 +266,7 @@ func epFromStorage(id ident, privHex string) (v verdict) {
 	p, pv := kit.Try(func() {
 		a, err := m.AddressFromStorage(st)
 		v.accepted = err == nil && a != nil
+		v.silent = err == nil && a == nil
 		if err != nil {
 			v.detail = err.Error()
 		}
@@ -283,6 +285,7 @@ func epFromKeyPair(id ident) (v verdict) {
 		kp := crop.MakeEd25519KeyPair(id.priv, ed25519.PublicKey(id.key))
 		a, err := m.AddressFromKeyPair(kp, id.ip, id.hash, id.easing)
 		v.accepted = err == nil && a != nil
+		v.silent = err == nil && a == nil
 	})
 	if p {
 		v.panicked, v.detail = true, fmt.Sprint(pv)
@@ -606,6 +609,9 @@ func TestC01(t *testing.T) {
 		case v.panicked:
 			rep.Violate(fmt.Sprintf("%s/panic/%s", ep, cls), fmt.Sprintf("entry point %s panicked on %s: %s", ep, id, v.detail), map[string]any{"entry": ep, "identity": id.String()})
 			rep.Outcome(ep + "/panic")
+		case v.silent:
+			rep.Violate(fmt.Sprintf("%s/rejected-without-error/%s", ep, cls), fmt.Sprintf("entry point %s returned neither an identity nor an error for %s", ep, id), map[string]any{"entry": ep, "identity": id.String()})
+			rep.Outcome(ep + "/rejected-without-error")
 		case v.accepted && !want:
 			rep.Violate(fmt.Sprintf("%s/accepted-invalid/%s", ep, cls), fmt.Sprintf("entry point %s accepted %s (left: %s)", ep, id, v.leftover), map[string]any{"entry": ep, "identity": id.String()})
 			rep.Outcome(ep + "/accepted-invalid")
@@ -875,7 +881,7 @@ func generator(rep *kit.Report, env kit.Env, evals, nontrivial *int64) {
 						rep.Outcome("generator/unsatisfiable-error")
 					}
 				default:
-					rep.Outcome("generator/identity")
+					rep.Outcome(fmt.Sprintf("generator/identity(easing=%d of max %d)", a.Easing, maxEasing))
 					bad := ""
 					inAcc := false
 					for _, p := range acc {
